@@ -150,3 +150,21 @@ Theorem C16_deterministic : forall c1 c2 b1 b2,
   c1 = c2 -> b1 = b2 -> generate_bash c1 b1 = generate_bash c2 b2.
 Proof. exact generate_bash_deterministic. Qed.
 Print Assumptions C16_deterministic.
+
+(** the whole completion function (model of what bash does with the script): after the words of a
+    subcommand path, a partial word that is not itself a word of a child of the addressed command is
+    answered with exactly the words of the addressed level that start with it ... *)
+Theorem C16_bash_complete : forall c root_bin t w0 ws ns n cur,
+  c_bin c = Some root_bin -> linked c -> mangle_safe c root_bin -> bash_table c = Some t ->
+  reach c ws ns n -> w0 <> [] -> Forall (fun w => w <> []) ws ->
+  (forall sc, In sc (c_subs n) -> ~ In cur (sc_words sc)) ->
+  exists l, opts_tokens n = Some l /\ bash_complete t (w0 :: ws ++ [cur]) = Some (compgen_W l cur).
+Proof. exact bash_complete_spec. Qed.
+Print Assumptions C16_bash_complete.
+
+(** ... and a partial word that IS a child's word is not (finding bash-cur-is-subcommand) *)
+Theorem C16_bash_cur_is_subcommand_refuted :
+  exists t l, bash_table cur_tree = Some t /\ opts_tokens cur_tree = Some l /\
+              compgen_W l [115] = [[115]; [115; 120]] /\ bash_complete t [[112]; [115]] = Some [].
+Proof. exact bash_cur_is_subcommand_refuted. Qed.
+Print Assumptions C16_bash_cur_is_subcommand_refuted.
